@@ -188,7 +188,9 @@ impl PrometheusBuilder {
     {
         use std::str::FromStr;
 
+        // A subnet in CIDR notation, or else a plain IP address, which stands for the network containing only itself.
         let address = IpNet::from_str(address.as_ref())
+            .or_else(|e| IpAddr::from_str(address.as_ref()).map(IpNet::from).map_err(|_| e))
             .map_err(|e| BuildError::InvalidAllowlistAddress(e.to_string()))?;
         self.allowed_addresses.get_or_insert(vec![]).push(address);
 
